@@ -54,7 +54,7 @@ def truth_restart(spec, r):
     from aurel import reading
     rs = spec['restarts'][r]
     out = {}
-    out['var available'] = set(reading.transform_vars_ET_to_aurel_groups(
+    out['var available'] = sorted(reading.transform_vars_ET_to_aurel_groups(
         list(rs.get('vars', spec['vars']))))
     allits = sorted({i for its in rs['its'].values() for i in its})
     if not allits:          # only checkpoints were written: they are what can be read
@@ -76,7 +76,7 @@ def norm_entry(e):
     out = {}
     for k, v in e.items():
         if k == 'var available':
-            out[k] = set(v)
+            out[k] = sorted(v)          # (order is not part of the contract, duplicates are)
         elif k == 'it to do':
             continue
         else:
@@ -160,7 +160,9 @@ def gen_cat_spec(seed):
             rs['checkpoints'] = sorted({int(v) for v in rng.choice(pool, int(rng.integers(1, 3)))})
             rs['chk_proc'] = bool(rng.random() < 0.4)
         restarts.append(rs)
-        if length >= 2 and rng.random() < 0.25:
+        if length == 0 and rng.random() < 0.5:
+            pass        # died right after its first output: the next one starts from the same point
+        elif length >= 2 and rng.random() < 0.25:
             # the next restart recovers from an earlier checkpoint of this one
             # (and may well stop before this one did)
             start += int(rng.integers(1, length)) * bs
